@@ -83,7 +83,10 @@ def body(ctx: H.BaseCtx):
                 r = r1
                 # constant after the first stage: later arguments cannot matter; shape is checked below only if no rest shapes
         elif mode == "numpoly.call":
-            r = numpoly.call(p, tuple(args), kwargs)
+            # the function form takes the positional values as any iterable and the keyword values as any mapping
+            form = case.get("argform", "tuple")
+            pos = {"tuple": lambda: tuple(args), "list": lambda: list(args), "generator": lambda: (a_ for a_ in args), "iterator": lambda: iter(list(args))}[form]()
+            r = numpoly.call(p, pos, dict(kwargs)) if form != "tuple" else numpoly.call(p, tuple(args), kwargs)
         else:
             r = p(*args, **kwargs)
     except Exception as e:
@@ -181,6 +184,13 @@ def gen_cases(tier: str, seed: int) -> List[Dict]:
                 elif rng.random() < 0.7:
                     kw[nm] = num("xyz"[i], rng.choice([(), (2,)]))
             add("mixed", poly=p, args=args, kwargs=kw, mode="direct")
+    # function form numpoly.call(poly, args, kwargs) with one-shot iterables for the positional values, alone and together with keywords
+    for form in ("generator", "iterator", "list"):
+        for psh in [(), (2,)]:
+            p3 = poly("a", ("q0", "q1", "q2"), psh, 3, 3)
+            add("callform", poly=p3, args=[num("x", ()), num("y", rng.choice([(), (2,)]))], kwargs={"q2": num("z", ())}, mode="numpoly.call", argform=form)
+            add("callform", poly=p3, args=[num("x", ()), num("y", ()), num("z", ())], kwargs={}, mode="numpoly.call", argform=form)
+            add("callform", poly=p3, args=[num("x", ())], kwargs={"q1": num("y", ())}, mode="numpoly.call", argform=form)
     # polynomial-valued arguments incl. swaps
     for psh in [(), (2,)] + ([] if quick else [(2, 2)]):
         p = poly("a", ("q0", "q1"), psh, 3, 3)
@@ -196,11 +206,13 @@ def gen_cases(tier: str, seed: int) -> List[Dict]:
     for psh in [(), (2,)]:
         # (few atoms: the cubes of symbolic coefficients make the branch conditions non-linear)
         p = S.make_poly_spec("a", ("q0", "q1"), [[3, 0], [1, 1], [0, 2], [0, 0]], psh, rng, 2, mode="raw", zero_prob=0.0, literal_prob=0.3)
-        b = S.make_poly_spec("b", ("q1",), [[0], [1]], (), rng, 1, mode="raw", zero_prob=0.0, literal_prob=0.0)
+        b = S.make_poly_spec("b", ("q1",), [[0], [1]], (), rng, 0, mode="raw", zero_prob=0.0, literal_prob=1.0)  # literal: cubes of an atom make z3 hang
         c = S.make_poly_spec("c", ("q0", "q2"), [[1, 0], [0, 2]], (), rng, 0, mode="raw", zero_prob=0.0, literal_prob=1.0)
         add("subst-deep", poly=p, args=[b, c], kwargs={}, mode="direct")
         add("subst-deep", poly=p, args=[b], kwargs={}, mode="direct")
-        add("subst-deep", poly=p, args=[], kwargs={"q1": c, "q0": b}, mode="direct")
+        # (literal-only argument here: with a symbolic one this case makes z3 run for minutes on a two-equation cubic query)
+        blit = S.make_poly_spec("b", ("q1",), [[0], [1]], (), rng, 0, mode="raw", zero_prob=0.0, literal_prob=1.0)
+        add("subst-deep", poly=p, args=[], kwargs={"q1": c, "q0": blit}, mode="direct")
     # renaming by a permutation that is not its own inverse (3-cycles need three indeterminates)
     def var(nm):
         return {"kind": "poly", "names": [nm], "exps": [[1]], "shape": [], "slots": [[1]], "mode": "raw"}
